@@ -9,6 +9,7 @@ OVERLAY = {"lib/store/sqlx/zz_verif_c11_test.go": "c11/sqlx_test.go",
            "lib/store/sqlx/zz_verif_c11_export_test.go": "c11/export_test.go"}
 RUN = "^TestVerifC11$"
 W = 6
+ROW_CHUNK = 150000   # row-mapping cases per replay run
 
 META = dict(
     text="Exhaustive model-based replay. spec/Tx.tla is the protocol of one Transact call between caller, body, "
@@ -25,7 +26,7 @@ META = dict(
          "manager made on its transaction handle (a finished *sql.Tx answers a second call by itself, so only the second count "
          "tells one Rollback from two; a result wrapping sql.ErrTxDone is judged the same way) are compared with "
          "the specification. spec/RowMap.tla enumerates destination shapes (scalars, structs of 1-3 fields, "
-         "tagged/untagged, tag spellings db:\"c\" / db:\"c,type=..,length=..\" / db:\"c,\" / mixed (the column is named by the element before the first comma), pointer fields, embedded value/pointer structs holding 1 or 2 of the leaf fields, *T, *[]T, *[]*T, slices already holding 0-2 elements) x result sets (all "
+         "tagged/untagged, tag spellings db:\"c\" / db:\"c,type=..,length=..\" / db:\"c,\" / mixed (the column is named by the element before the first comma), names in tags and columns spelled all lower-case / camel (userId) / capitalised (Userid) / all upper-case (a tag names exactly the column with the same spelling; a result set spelled differently from the tags may be read either way), pointer fields, embedded value/pointer structs holding 1 or 2 of the leaf fields, *T, *[]T, *[]*T, slices already holding 0-2 elements) x result sets (all "
          "column orders of all column subsets, an extra column, NULL, 0/1/3 rows) x strict/partial with the SET of "
          "outcomes the statement allows; every case is executed by QueryRow(s)(Partial) through a Conn, a "
          "transaction session, a prepared statement and sqlc's NoCache pass-through.",
@@ -36,7 +37,9 @@ META = dict(
          "is silent on (so both outcomes are allowed or the case is not generated): result error text when the "
          "Rollback itself fails, NULL arriving in a field (error or zero), tagged fields inside an embedded struct "
          "(by name or by position), untagged structs with more columns than fields (not generated), tags whose name element is empty (db:\",opt\") or \"-\" (to orm.go \"-\" is an ordinary column name; not generated), "
-         "structs mixing tagged and untagged fields (not generated), option-carrying tags meet only empty slices (and, in the quick tier, only pointer-free shapes), whether a non-empty destination slice is appended to or replaced (both allowed), scalar "
+         "structs mixing tagged and untagged fields (not generated), whether a column whose name differs from a tag's name only in letter case is that tag's column "
+         "(orm.go compares the strings verbatim, so it is not; both readings are allowed, but all such columns of one result set must be read the same way), "
+         "names with upper-case letters meet only flat shapes with plain tags and empty slices (in the quick tier only pointer-free ones), differently spelled result sets only the pointer-free ones of these (in the quick tier one other spelling per tag spelling), option-carrying tags meet only empty slices (and, in the quick tier, only pointer-free shapes), whether a non-empty destination slice is appended to or replaced (both allowed), scalar "
          "destinations with several columns (not generated).",
     technique="TLA+ specs (Tx, RowMap) + TLC-enumerated behaviours/cases replayed on the real sqlx over sqlmock",
     design="4/C11")
@@ -49,9 +52,10 @@ FINISH = dict(rule="transactions: complete TLC enumeration (BFS over the history
 TX_INV = ["TypeOK", "NilMeansCommitted", "ElseRolledBack", "CommitIffNil", "OneEnding", "NoDangling", "NoTxNoEnd",
           "BegunIsEnded", "FailureIsReported", "OneEndingCall", "CallsReachDriver"]
 ROW_INV = ["OrderIndependent", "ExtraIgnored", "StrictNeverPartial", "StrictCountsLeafFields", "PrefilledSameVerdict", "EmptyIsNotFound",
-           "FieldsComeFromTheirColumns", "TagOptionsIgnored", "NeverEmpty"]
+           "FieldsComeFromTheirColumns", "TagOptionsIgnored", "SameSpellingMatches", "OtherSpellingEitherReading", "NeverEmpty"]
 IMPL_INV = ["NilMeansCommitted", "ElseRolledBack", "FailureIsReported", "NoDangling", "OneEnding", "OneEndingCall"]
 TAG_STYLES = ["plain", "opts", "comma", "mixed"]
+TAG_CASES = ["lower", "camel", "cap", "upper"]
 CTX = dict(Ctxs='{"live","cancelled","expired","bodycancel"}', CtxApis='{"TransactCtx","CachedTransactCtx"}')
 APIS4 = '{"Transact","TransactCtx","CachedTransact","CachedTransactCtx"}'
 
@@ -90,11 +94,12 @@ def tx_gen(ctx, name, simulate=None, **K):
 
 def row_consts(ctx, thorough_part=None):
     styles = "{%s}" % ",".join('"%s"' % x for x in TAG_STYLES)
+    cases = "{%s}" % ",".join('"%s"' % x for x in TAG_CASES)
     if ctx.quick:
         return dict(MaxF=3, RowCounts="{0,1,3}", PtrSets='"few"', Dests='{"one","vals","ptrs"}', Pres="{0,1}",
-                    TagStyles=styles, StyleCross='"none"')
+                    TagStyles=styles, StyleCross='"none"', TagCases=cases, ColCases='"next"', CaseCross='"flat"')
     return dict(MaxF=3, RowCounts="{0,1,2,3}", PtrSets='"all"', Dests='{"one","vals","ptrs"}', Pres="{0,1,2}",
-                TagStyles=styles, StyleCross='"ptrs"')
+                TagStyles=styles, StyleCross='"ptrs"', TagCases=cases, ColCases='"all"', CaseCross='"ptrs"')
 
 
 def run(ctx):
@@ -125,18 +130,27 @@ def run(ctx):
 
     # ---- row mapping
     K = row_consts(ctx)
-    cfg = core.render_cfg(spec="Spec", constants=K, invariants=ROW_INV)
-    r = ctx.tlc("RowMap", cfg, constants=K, name="RowMap-mc", workers=W, coverage=True, timeout=900)
-    ctx.check_coverage(r, ["PickShape", "PickResult"])
-    cfg = core.render_cfg(spec="Spec", constants=K, invariants=["Emit"])
+    # one TLC run checks the invariants of the mapping on every case and prints the case (the generator module
+    # only adds Emit to RowMap's state space).  A printed case is a state with picked = TRUE, which is reached
+    # by PickShape followed by PickResult only: printed cases are the evidence that both actions fired
+    # (TLC's -coverage doubles the cost of this run and would say no more).
+    cfg = core.render_cfg(spec="Spec", constants=K, invariants=ROW_INV + ["Emit"])
     cases = ctx.tlc("RowMapGen", cfg, constants=K, name="rowmap", workers=W, timeout=900).printed
-    path, n = ctx.write_cases("rowmap.ndjson", cases)
+    if not cases:
+        raise core.Infra("vacuous model: RowMapGen printed no case (PickShape / PickResult never taken)")
     ctx.samples += core.sample_of(cases, 2)
     cnt = {}
-    try:
-        cnt, _ = ctx.replay(PKG, OVERLAY, RUN, path, label="rowmap", shards=8, binp=binp)
-    except core.Infra as e:
-        first_err = first_err or e
+    # every shard process loads the whole cases file it is given (about 6 KB of heap per case): the cases are
+    # replayed in chunks so that the 8 shards together stay below ~8 GB whatever the tier's case count is
+    for k in range(0, len(cases), ROW_CHUNK):
+        path, n = ctx.write_cases("rowmap-%d.ndjson" % (k // ROW_CHUNK), cases[k:k + ROW_CHUNK])
+        try:
+            c, _ = ctx.replay(PKG, OVERLAY, RUN, path, label="rowmap", shards=8, binp=binp)
+        except core.Infra as e:
+            first_err = first_err or e
+            continue
+        for key, v in c.items():
+            cnt[key] = cnt.get(key, 0) + v
     if first_err is not None:
         if not ctx.disagreements:
             raise first_err
@@ -159,6 +173,11 @@ def vacuity(ctx, cnt):
     for st in TAG_STYLES:
         if not cnt.get("rowmap.tags-" + st):
             raise core.Infra("vacuous: no tagged destination with tag spelling %s was replayed" % st)
+    for cs in TAG_CASES:
+        if not cnt.get("rowmap.names-" + cs):
+            raise core.Infra("vacuous: no tagged destination whose tags and columns are spelled in %s case was replayed" % cs)
+    if not cnt.get("rowmap.columns-spelled-differently"):
+        raise core.Infra("vacuous: no result set spelling its columns differently from the tags was replayed")
     for k in ("ctx-cancelled", "ctx-expired", "ctx-bodycancel"):
         if not ctx.counters.get("tx1.tx." + k):
             raise core.Infra("vacuous: no transaction with context scenario %s was judged" % k)
